@@ -1125,10 +1125,11 @@ def _isnan(x):
 def _jnp_any(x, **k):
     if isinstance(x, Sym) and x.op == 'isnan':
         return Sym('any_isnan', *x.args)
+    # `any` over a collection of boolean scalars is their disjunction (one normal form with an or-accumulation over the same scalars)
     if isinstance(x, Sym) and x.op == 'array' and len(x.args) == 1 and isinstance(x.args[0], tuple):
-        return Sym('any', *x.args[0])
-    if isinstance(x, (list, tuple)) and x and all(isinstance(v, (Pred, bool, np.bool_)) for v in x):
-        return Pred.disj(list(x))
+        x = list(x.args[0])
+    if isinstance(x, (list, tuple)) and x and all(isinstance(v, (Pred, bool, np.bool_, Sym)) for v in x):
+        return Pred.disj([v if isinstance(v, (Pred, bool, np.bool_)) else as_pred(v) for v in x])
     if isinstance(x, (list, tuple)):
         return Sym('any', *[fz(v) for v in x])
     return term('any', x)
